@@ -314,7 +314,9 @@ def _disconnect_due(f, causes, slack):
         if cz['kind'] == 'silence':
             if not f.monitor:
                 continue
-            deadline = cz['t'] - f.T + f.I + 3 * f.T + slack
+            # PING at t_p = cz['t'] - T; property bound: last PONG + I + 3T
+            # = t_p + 3T
+            deadline = cz['t'] + 2 * f.T + slack
             if cz.get('resumed') is not None and cz['resumed'] <= deadline:
                 continue      # the peer answered again: not "stopped"
         elif cz['kind'] == 'poll_timeout':
@@ -351,8 +353,10 @@ def _check_reason(f, sid, s, d, causes):
     for c in occurred:
         allowed |= c['reasons']
     if not occurred:
-        out.append(V('disconnect-cause', '%s|disconnect-without-cause|%s' %
-                     (impl, reason),
+        sig = '%s|disconnect-without-cause|%s' % (impl, reason)
+        if reason == 'transport close' and _writer_timeout_tie(f, sid, d):
+            sig = '%s|ws-timeout-tie-pong-at-deadline' % impl
+        out.append(V('disconnect-cause', sig,
                      'session %s disconnected (%r at t=%.4f) but no end '
                      'cause had occurred' % (sid, reason, d['t'])))
         return out
@@ -382,6 +386,24 @@ def _check_reason(f, sid, s, d, causes):
                          'others strictly later) but the reason is %r'
                          % (sid, first['kind'], first['t'], reason)))
     return out
+
+
+def _writer_timeout_tie(f, sid, d):
+    """A WebSocket read/write wait of I + T expired on the very instant a
+    PONG that was *exactly* at its deadline arrived (reader: the wait began
+    at the previous PONG, and the PING came I later) or on the instant the
+    PING following such a PONG was produced (writer: the wait began when it
+    took the previous PING)."""
+    q = f.h.world.qlog.get(sid, [])
+    pings = [t for (_s, t, pt, _d) in q if pt == R.PING]
+    pongs = f.pong_arrivals(sid)
+    for tp in pings:
+        for ta in pongs:
+            if abs(ta - (tp + f.T)) <= EPS:
+                if abs(d['t'] - ta) <= EPS or \
+                        abs(d['t'] - (ta + f.I)) <= EPS:
+                    return True
+    return False
 
 
 def _check_after_disconnect(f, sid, s, d):
@@ -1177,3 +1199,94 @@ def _fail_shape(u):
     if isinstance(second, str) and len(second) > 64:
         return 'oversize-second-frame'
     return 'wrong-second-frame'
+
+
+# ===========================================================================
+# C07  heartbeat
+# ===========================================================================
+
+def check_heartbeat(h, f=None):
+    f = f or Facts(h)
+    out = []
+    impl = f.impl
+    I, T = f.I, f.T
+    for sid, s in f.sess.items():
+        c = s['client']
+        if c is None or not s['accepted']:
+            continue
+        q = h.world.qlog.get(sid, [])
+        opens = [t for (sq, t, pt, d) in q if pt == R.OPEN]
+        if not opens:
+            continue
+        t_open = opens[0]
+        pings = [t for (sq, t, pt, d) in q if pt == R.PING]
+        pongs = f.pong_arrivals(sid)
+        dsc = s['disconnect'][0] if s['disconnect'] else None
+        t_dead = dsc['t'] if dsc else None
+        expected = [t_open + I] + [tp + I for tp in pongs]
+        # (a) every PING was produced exactly I after OPEN or after a PONG
+        for tp in pings:
+            if not any(abs(tp - e) <= EPS for e in expected):
+                near = min(expected, key=lambda e: abs(e - tp))
+                out.append(V('ping-period', '%s|ping-at-wrong-time|%s' % (
+                    impl, 'early' if tp < near else 'late'),
+                    'session %s: PING produced at t=%.4f; expected exactly '
+                    'ping_interval=%.4g after OPEN (%.4f) or a PONG (%r): '
+                    'nearest expected %.4f' % (sid, tp, I, t_open,
+                                               [round(x, 4) for x in
+                                                pongs][:6], near)))
+                break
+        for e in expected:
+            if e > f.end - 2 * TICK:
+                continue
+            if t_dead is not None and e >= t_dead - EPS:
+                continue
+            if not any(abs(tp - e) <= EPS for tp in pings):
+                out.append(V('ping-period', '%s|ping-missing' % impl,
+                             'session %s: no PING at t=%.4f (ping_interval '
+                             'after %s) although the session was open' % (
+                                 sid, e, 'OPEN' if e == expected[0]
+                                 else 'a PONG')))
+                break
+        # (b)/(c) are the session-event rules with the heartbeat bound;
+        # (d) a poll is never held longer than I + T
+        for req in c.polls + [r for r in c.raws if r.method == 'GET']:
+            if req.t_arrive is None or ('sid=' + sid) not in req.query:
+                continue
+            t1 = req.t_done if req.t_done is not None else f.end
+            if t1 - req.t_arrive > I + T + 2 * TICK:
+                out.append(V('poll-bound', '%s|poll-held-longer-than-I+T' %
+                             impl, 'session %s: poll %d reached the server '
+                             'at t=%.4f and was %s at t=%.4f, longer than '
+                             'ping_interval + ping_timeout = %.4g' % (
+                                 sid, req.rid, req.t_arrive,
+                                 'answered' if req.t_done is not None
+                                 else 'still pending', t1, I + T)))
+                break
+            if req.t_done is not None and req.status == 400 and \
+                    abs((req.t_done - req.t_arrive) - (I + T)) <= EPS:
+                # clause (d): answered with an error => the session closes
+                if not s['disconnect']:
+                    out.append(V('poll-timeout-closes',
+                                 '%s|poll-timeout-session-kept' % impl,
+                                 'session %s: poll %d timed out with an '
+                                 'error but the session got no disconnect '
+                                 'event' % (sid, req.rid)))
+        # monitor off: the first send after the deadline detects the silence
+        if not f.monitor and not s['disconnect']:
+            for cz in f.causes(sid):
+                if cz['kind'] != 'silence' or cz.get('resumed') is not None:
+                    continue
+                for rec in h.app_sends:
+                    if rec['sid'] == sid and rec['t_start'] is not None and \
+                            rec['t_start'] > cz['t'] + TICK and \
+                            rec['t_start'] < f.end - 0.1:
+                        out.append(V('detect-at-send',
+                                     '%s|send-after-deadline-did-not-detect'
+                                     % impl,
+                                     'session %s: PING unanswered since '
+                                     't=%.4f, send() at t=%.4f did not '
+                                     'disconnect it' % (sid, cz['t'] - T,
+                                                        rec['t_start'])))
+                        break
+    return out
